@@ -163,7 +163,14 @@ def _install():
 
 def _build_frame(r):
     from forsys import frames
-    return frames.Frame(0, r.vertices, r.edges, r.cells)
+    try:
+        return frames.Frame(0, r.vertices, r.edges, r.cells)
+    except Exception as exc:
+        import traceback
+        _MON.last = None
+        _MON.fail("frame-raises", "a frame can be built from a consistent mesh", exc=repr(exc)[:160],
+                  tb=traceback.format_exc()[-400:])
+        return None
 
 
 def _sig(mon):
